@@ -179,7 +179,7 @@ func (c *shardedMapOf[V]) ExpireAll(ctx context.Context) {
 		b := &c.hashedBuckets[i]
 		b.Lock()
 		for h, v := range b.data {
-			v.E = startTS
+			atomic.StoreInt64(&v.E, startTS)
 			b.data[h] = v
 			cnt++
 		}
@@ -297,7 +297,7 @@ func (c *shardedMapLegacyWalkerOf[V]) Walk(walkFn func(e Entry) error) (int, err
 			e := TraitEntry{
 				K: v.K,
 				V: v.V,
-				E: v.E,
+				E: atomic.LoadInt64(&v.E),
 			}
 
 			err := walkFn(e)
